@@ -26,6 +26,67 @@ LAWS = {
 }
 
 
+_STR = re.compile(r'"(?:[^"\\]|\\.)*"')
+_TR = str.maketrans({"[": "{", "]": "}", "{": "[", "}": "]"})
+
+
+def tla_to_json(txt: str):
+    """A TLA+ value as TLC prints it (records, tuples, sets, strings, integers, booleans) -> Python.
+    Records become dicts, tuples and sets lists.  Functions with other domains are not supported."""
+    out = []
+    pos = 0
+    for m in _STR.finditer(txt):
+        out.append(_conv(txt[pos:m.start()]))
+        out.append(m.group(0))
+        pos = m.end()
+    out.append(_conv(txt[pos:]))
+    return json.loads("".join(out))
+
+
+def _conv(t: str) -> str:
+    if ":>" in t or "@@" in t:
+        raise MachineryError("function value with a non-sequence domain in exported state")
+    t = t.replace("<<", "\x01").replace(">>", "\x02").translate(_TR).replace("\x01", "[").replace("\x02", "]")
+    t = re.sub(r"([A-Za-z_][A-Za-z0-9_]*)\s*\|->", r'"\1":', t)
+    return t.replace("TRUE", "true").replace("FALSE", "false")
+
+
+def export_states(module: str, consts: dict, var: str = "cur", name=None, timeout=1800, workers=8):
+    """Like export_cases for modules whose cases are the *initial states* themselves (Init is an
+    existential over the case space, so TLC enumerates it without building one huge set): the states
+    are dumped by TLC (-dump) and read back.  Returns (cases, TLCResult, ncases)."""
+    wd = workdir("states-" + (name or module))
+    try:
+        cfg = wd / f"{module}.run.cfg"
+        lines = ["SPECIFICATION Spec"] + (["CONSTANTS"] + [f"  {k} {v}" for k, v in consts.items()] if consts else [])
+        for law in LAWS.get(module.replace("MC_", ""), []):
+            lines.append(f"INVARIANT {law}")
+        cfg.write_text("\n".join(lines) + "\n")
+        dump = wd / "states"
+        r = run_tlc(module, str(cfg), workers=workers, timeout=timeout, metaname=name or module,
+                    extra=["-dump", str(dump)])
+        require_tlc_ok(r, module)
+        if r.violated:
+            raise MachineryError(f"{module}: a law of the reference model is false ({r.violated}):\n" + r.out[-1500:])
+        f = wd / "states.dump"
+        if not f.exists():
+            raise MachineryError(f"{module} dumped no states:\n" + r.out[-1500:])
+        txt = f.read_text()
+        cases = []
+        for blk in re.split(r"^State \d+:\s*$", txt, flags=re.M)[1:]:
+            blk = blk.strip()
+            if not blk.startswith(var + " ="):
+                raise MachineryError(f"unexpected state text: {blk[:80]}")
+            cases.append(tla_to_json(blk[len(var) + 2:]))
+        if len(cases) != r.distinct:
+            raise MachineryError(f"{module}: {len(cases)} dumped states but TLC reports {r.distinct} distinct")
+        # canonical order (TLC's dump order depends on worker scheduling)
+        cases.sort(key=lambda c: json.dumps(c, sort_keys=True))
+        return cases, r, len(cases)
+    finally:
+        cleanup(wd)
+
+
 def export_cases(module: str, consts: dict, defs_module: str | None = None, name=None,
                  timeout=1800, workers=8):
     """Run TLC on `module` with literal constants; returns (cases list, TLCResult, ncases)."""
